@@ -112,6 +112,12 @@ func genCase(rt *rapid.T) *caseT {
 		c.noNested = rapid.Bool().Draw(rt, "cfg.nonested")
 	}
 	c.backToV1 = rapid.IntRange(0, 2).Draw(rt, "backtov1") == 0
+	for _, a := range c.added {
+		if strings.HasPrefix(a, "changed ") {
+			// v2 changed the definition of an existing column: going back to v1 legitimately changes it back
+			c.backToV1 = false
+		}
+	}
 	return c
 }
 
@@ -848,6 +854,202 @@ func TestC20Relations(t *testing.T) {
 						}
 					}
 				}
+			}
+		}
+	}
+}
+
+// ---- many2many: the join table gorm derives from the key fields' tags ---------------------------------
+//
+// The join table's fields copy the tags of the owner's and the target's key fields
+// minus column / autoIncrement / index / unique / uniqueIndex (removed whatever their
+// spelling). Static model types again (relations need TableName); three spellings.
+
+type m2mTagA struct {
+	ID   uint
+	Code string `gorm:"uniqueIndex"`
+	Name string
+}
+
+func (m2mTagA) TableName() string { return "c20_tags" }
+
+type m2mTagB struct {
+	ID   uint
+	Code string `gorm:"column:tag_code; UNIQUEINDEX; size:32"`
+	Name string
+}
+
+func (m2mTagB) TableName() string { return "c20_tags" }
+
+type m2mTagC struct {
+	ID   uint
+	Code string `gorm:"not null;Index;unique"`
+	Name string
+}
+
+func (m2mTagC) TableName() string { return "c20_tags" }
+
+type m2mPostV1 struct {
+	ID     uint `gorm:"primaryKey;autoIncrement"`
+	Marker int64
+	Title  string
+}
+
+func (m2mPostV1) TableName() string { return "c20_posts" }
+
+type m2mPostA struct {
+	ID     uint `gorm:"primaryKey;autoIncrement"`
+	Marker int64
+	Title  string
+	Tags   []m2mTagA `gorm:"many2many:c20_post_tags;joinForeignKey:PostID;references:Code;joinReferences:TagCode"`
+}
+
+func (m2mPostA) TableName() string { return "c20_posts" }
+
+type m2mPostB struct {
+	ID     uint `gorm:"PRIMARYKEY;AUTOINCREMENT"`
+	Marker int64
+	Title  string
+	Tags   []m2mTagB `gorm:"many2many:c20_post_tags;joinForeignKey:PostID;references:Code;joinReferences:TagCode"`
+}
+
+func (m2mPostB) TableName() string { return "c20_posts" }
+
+type m2mPostC struct {
+	ID     uint `gorm:"primaryKey;autoIncrement:true;index:idx_posts_id"`
+	Marker int64
+	Title  string
+	Tags   []m2mTagC `gorm:"many2many:c20_post_tags;joinForeignKey:PostID;references:Code;joinReferences:TagCode"`
+}
+
+func (m2mPostC) TableName() string { return "c20_posts" }
+
+type m2mCase struct {
+	Variant string `json:"variant"` // A, B, C
+	FromV1  bool   `json:"from_v1"` // the posts table exists (v1, rows) before the relation is added
+}
+
+func (c m2mCase) String() string {
+	return fmt.Sprintf("many2many variant %s (key tags: A `uniqueIndex` / B `column:tag_code; UNIQUEINDEX` / C `Index;unique`, owner key autoIncrement spelled differently) posts table exists first=%v", c.Variant, c.FromV1)
+}
+
+func (c m2mCase) run() string {
+	d := testdb.Open(testdb.Options{})
+	defer d.Close()
+	var post, tag interface{}
+	var newPost func(marker int64) interface{}
+	var newTag func() interface{}
+	switch c.Variant {
+	case "A":
+		post, tag = &m2mPostA{}, &m2mTagA{}
+		newPost = func(m int64) interface{} { return &m2mPostA{Marker: m, Title: "p"} }
+		newTag = func() interface{} { return &m2mTagA{Code: "go", Name: "Go"} }
+	case "B":
+		post, tag = &m2mPostB{}, &m2mTagB{}
+		newPost = func(m int64) interface{} { return &m2mPostB{Marker: m, Title: "p"} }
+		newTag = func() interface{} { return &m2mTagB{Code: "go", Name: "Go"} }
+	default:
+		post, tag = &m2mPostC{}, &m2mTagC{}
+		newPost = func(m int64) interface{} { return &m2mPostC{Marker: m, Title: "p"} }
+		newTag = func() interface{} { return &m2mTagC{Code: "go", Name: "Go"} }
+	}
+	_ = tag
+	if c.FromV1 {
+		if err := d.DB.AutoMigrate(&m2mPostV1{}); err != nil {
+			return "migrate(v1) failed: " + err.Error()
+		}
+		if err := d.DB.Create(&m2mPostV1{Marker: 1, Title: "old"}).Error; err != nil {
+			return "insert failed: " + err.Error()
+		}
+	}
+	if err := d.DB.AutoMigrate(post); err != nil {
+		return "migrate(v2) failed: " + err.Error()
+	}
+	// the join table: both key columns form the primary key, neither is unique / auto-increment on its own
+	var ddl string
+	_ = d.SQL.QueryRow("SELECT sql FROM sqlite_master WHERE type='table' AND name='c20_post_tags'").Scan(&ddl)
+	if ddl == "" {
+		return "the join table c20_post_tags was not created"
+	}
+	up := strings.ToUpper(ddl)
+	if !strings.Contains(up, "PRIMARY KEY (`POST_ID`,`TAG_CODE`)") {
+		return "the join table has no composite primary key (post_id, tag_code): " + ddl
+	}
+	if strings.Contains(up, "AUTOINCREMENT") || strings.Contains(up, " UNIQUE") {
+		return "the join table carries an auto-increment / unique column of its own: " + ddl
+	}
+	rows, err := d.SQL.Query("SELECT il.name, il.[unique], (SELECT count(*) FROM pragma_index_info(il.name)) FROM pragma_index_list('c20_post_tags') il")
+	if err != nil {
+		return "harness: " + err.Error()
+	}
+	for rows.Next() {
+		var name string
+		var uniq, ncols int
+		_ = rows.Scan(&name, &uniq, &ncols)
+		if uniq == 1 && ncols == 1 {
+			rows.Close()
+			return fmt.Sprintf("the join table has a unique index %q over a single join column: two owners cannot share a target", name)
+		}
+	}
+	rows.Close()
+	// two owners share one target
+	t1 := newTag()
+	if err := d.DB.Create(t1).Error; err != nil {
+		return "Create(tag) failed: " + err.Error()
+	}
+	for i := 0; i < 2; i++ {
+		p := newPost(int64(100 + i))
+		if err := d.DB.Create(p).Error; err != nil {
+			return "Create(post) failed: " + err.Error()
+		}
+		if err := d.DB.Model(p).Association("Tags").Append(t1); err != nil {
+			return fmt.Sprintf("Association(Tags).Append for owner %d failed: %v", i, err)
+		}
+		if n := d.DB.Model(p).Association("Tags").Count(); n != 1 {
+			return fmt.Sprintf("owner %d has %d tags after Append of one", i, n)
+		}
+	}
+	var links int
+	_ = d.SQL.QueryRow("SELECT count(*) FROM c20_post_tags WHERE tag_code = 'go'").Scan(&links)
+	if links != 2 {
+		return fmt.Sprintf("%d join rows for two owners sharing one target", links)
+	}
+	// idempotence
+	schema1, _ := dumpSchema(d)
+	d.Rec.Reset()
+	if err := d.DB.AutoMigrate(post); err != nil {
+		return "second migrate(v2) failed: " + err.Error()
+	}
+	for _, e := range d.Rec.Statements() {
+		if schemaChanging(e.Text) {
+			return "second migrate(v2) sent a schema-changing statement: " + e.Text
+		}
+	}
+	if s, _ := dumpSchema(d); s != schema1 {
+		return "second migrate(v2) changed the schema:\n before: " + schema1 + " after: " + s
+	}
+	return ""
+}
+
+func TestC20ManyToMany(t *testing.T) {
+	if harness.ReplayPath() != "" {
+		var c m2mCase
+		if err := harness.LoadReplay(&c); err != nil {
+			t.Fatalf("cannot load replay: %v", err)
+		}
+		if msg := c.run(); msg != "" {
+			t.Fatalf("C20 violated: %s\n  case: %s", msg, c)
+		}
+		return
+	}
+	for _, v := range []string{"A", "B", "C"} {
+		for _, from := range []bool{false, true} {
+			c := m2mCase{v, from}
+			evid.Journal(c.String())
+			evid.Case("many2many: "+c.String(), true, nil, "many2many:variant-"+v, fmt.Sprintf("many2many:posts-table-first=%v", from))
+			if msg := c.run(); msg != "" {
+				harness.SaveCase("TestC20ManyToMany", c)
+				t.Errorf("C20 violated: %s\n  case: %s", msg, c)
 			}
 		}
 	}
